@@ -208,21 +208,7 @@ def c01_4(ctx, R="C01.4", only=None):
             ok = bool(r) and r[0] == "bin" and r[1] == "Ne" and any(isinstance(x, tuple) and x and x[0] == "arg" and x[1] == 1 for x in subterms(r)) \
                 and any(isinstance(x, tuple) and x and x[0] == "arg" and x[1] == 0 for x in subterms(r))
         ctx.ob(R, "birth-closure#%d" % k, ok, "birth assertion rejects a *different* previous value (`|v| v != new`)")
-    # assert_not_ephemeral records the spend index once
-    ab = U.body(ctx, R, "chia_consensus::conditions::assert_not_ephemeral")
-    if ab:
-        got = set()
-        for ev, ex in P.enumerate_paths(ab, want_assign=True):
-            facts = frozenset(apnf.fact(t, l) for t, l in P.conds(ev))
-            eff = frozenset(x for x in (RG.effect_of(e) for e in ev) if x)
-            got.add((facts, eff))
-        test = ("Ne", ("BitAnd", "spend_flags", "HAS_RELATIVE_CONDITION"), 0)
-        exp = {(frozenset({(test, True)}), frozenset()),
-               (frozenset({(test, False)}), frozenset({("call", ("HashSet::insert", (".assert_not_ephemeral", "state"), "idx")),
-                                                       ("set", "spend_flags", ("BitOr", "spend_flags", "HAS_RELATIVE_CONDITION"))}))}
-        got2 = {(frozenset(_named(f) for f in fs), frozenset(_named(e) for e in es)) for fs, es in got}
-        ctx.ob(R, "assert_not_ephemeral", got2 == exp, "assert_not_ephemeral inserts the spend index and sets HAS_RELATIVE_CONDITION",
-               found=None if got2 == exp else [[sorted(map(str, a)), sorted(map(str, c))] for a, c in got2])
+    assert_not_ephemeral_exact(ctx, R)
     db = U.body(ctx, R, "chia_consensus::conditions::decrement")
     if db:
         got = set()
@@ -416,3 +402,22 @@ def is_ephemeral_exact(ctx, R):
     ctx.ob(R, "is_ephemeral:exact", ok and all(shape.values()),
            "is_ephemeral = parent id found in spent_ids AND that spend's create_coin contains (puzzle hash, amount); no other test "
            "(no dependence on the position of either spend in the list)", found=None if ok else sorted(map(str, rows))[:4], where=eb.fn.sp)
+
+
+def assert_not_ephemeral_exact(ctx, R):
+    """the helper records the spend for the ephemeral check unless it was recorded before, keyed on HAS_RELATIVE_CONDITION only"""
+    # assert_not_ephemeral records the spend index once
+    ab = U.body(ctx, R, "chia_consensus::conditions::assert_not_ephemeral")
+    if ab:
+        got = set()
+        for ev, ex in P.enumerate_paths(ab, want_assign=True):
+            facts = frozenset(apnf.fact(t, l) for t, l in P.conds(ev))
+            eff = frozenset(x for x in (RG.effect_of(e) for e in ev) if x)
+            got.add((facts, eff))
+        test = ("Ne", ("BitAnd", "spend_flags", "HAS_RELATIVE_CONDITION"), 0)
+        exp = {(frozenset({(test, True)}), frozenset()),
+               (frozenset({(test, False)}), frozenset({("call", ("HashSet::insert", (".assert_not_ephemeral", "state"), "idx")),
+                                                       ("set", "spend_flags", ("BitOr", "spend_flags", "HAS_RELATIVE_CONDITION"))}))}
+        got2 = {(frozenset(_named(f) for f in fs), frozenset(_named(e) for e in es)) for fs, es in got}
+        ctx.ob(R, "assert_not_ephemeral", got2 == exp, "assert_not_ephemeral inserts the spend index and sets HAS_RELATIVE_CONDITION",
+               found=None if got2 == exp else [[sorted(map(str, a)), sorted(map(str, c))] for a, c in got2])
